@@ -6,16 +6,87 @@ import os
 VERIF = os.path.dirname(os.path.dirname(os.path.abspath(__file__)))
 
 CHECKS = {
+    "C02": dict(
+        technique="structural lemmas on the AST + path-sensitive effect extraction of receive (typestate engine)",
+        text="Decides the five code-shape lemmas from which chunking independence follows by induction (the induction is on paper): L1/L2 a reader "
+             "advances only after validation and by exactly header+content, T1 no upper-bounded slice of the input without a dominating length fact, "
+             "L3 residue discipline on every extracted path of receive, L4 decode-order append and an independent processing loop, L5 copy-out. "
+             "Necessary conditions; value equality across chunkings is not decided.",
+        note="Trusted: Python slicing/bytes semantics; the induction over chunks; receive keeps today's two-phase shape (an early return that is not "
+             "'no new data' is reported).",
+        ref="DESIGN.md section 5 C02"),
+    "C05": dict(
+        technique="inter-procedural may-raise analysis with guard-fact discharge + typestate paths + constant folding of the notification",
+        text="Decides that the set of exception classes that can leave LDAPSession/LDAPClient/LDAPServer.receive is {ProtocolError}: explicit raises, a "
+             "catalogue of implicit raisers (index, key, struct, codec, enum conversion, tuple unpacking, None attribute, byte range) each discharged by "
+             "dominating guard facts or reported, class-hierarchy call resolution, recursion cycles; plus closure (every ProtocolError path ends CLOSED) "
+             "and well-formed construction of the attached unbind / notice of disconnection, including encodability of the error text.",
+        note="Sound over-approximation for the constructs catalogued; user-registered types are outside the claim; len() <= sys.maxsize; CPython's "
+             "UnicodeDecodeError/ValueError message texts are ASCII.",
+        ref="DESIGN.md section 5 C05, Appendix D"),
+    "C06": dict(
+        technique="exception-provenance dataflow (which reader a NotEnougData was raised on) over the resolved call graph",
+        text="Decides that every NotEnougData reaching a 'wait for more bytes' handler in receive was raised by a read on the stream-level reader itself, "
+             "which by L1/L2 (also checked) has not advanced; interior readers' NotEnougData must be converted before. Also: no early return with "
+             "pending bytes, stream reader used only for validated reads.",
+        note="Trusted: the counting argument from the lemmas to the property; receive's decode loop shape.",
+        ref="DESIGN.md section 5 C06"),
+    "C07": dict(
+        technique="integer-interval and guard-fact analysis of asn1.py + writer/reader constant agreement",
+        text="PARTIAL by design: decides (a) totality/range safety of the BER primitives (every subscript in range, every bytearray store in 0..255, "
+             "struct.unpack fed one octet), (b) no over-consumption / no silent clamping, (c) agreement of the bit-field constants the writer and reader "
+             "use (tag-form threshold 31, length-form threshold 128, 7-bit continuation, class/constructed bit positions, boolean octets). The arithmetic "
+             "equalities of the property (minimal two's complement, denoted value) are NOT decided: no sound static argument in reach.",
+        note="Caller preconditions on user-supplied tags (class in 0..3, number >= 0) are assumed for the writer; the library's own tags are checked constant under C05.",
+        ref="DESIGN.md section 5 C07"),
     "C08": dict(
         technique="static typestate/effect extraction (path-sensitive abstract interpretation of _session.py over the AST)",
         text="Decides the lifecycle machine on the extracted transition relation: every path of every public entry of the three "
              "session classes from each pre-state is enumerated from the source (self/super calls inlined through the MRO) and "
              "rules R1-R12 (CLOSED absorbing, BINDING entry/exit/gate, closing events, refused sends keep the state, only "
-             "documented transitions) are checked on all of them. Sound for the statement/expression vocabulary of _session.py; "
-             "anything else is an ANALYSIS-ERROR.",
+             "documented transitions) are checked on all of them.",
         note="Trusted: Python semantics of the interpreted constructs; loops analysed for 0/1 iteration (rules are per effect); "
              "calls leaving _session.py are opaque and may raise. BEFORE_OPEN => empty id sets is itself checked (I0).",
         ref="DESIGN.md section 5 C08, Appendix C"),
+    "C09": dict(
+        technique="typestate path summaries + who-may-write census of the message counter",
+        text="Decides counter discipline (only += positive literal), stamping (id read from the counter is the id in the bytes, the id returned and the id "
+             "recorded outstanding, recorded only after the send), and the acceptance/rejection table of incoming messages by (class, id in search set, "
+             "id in outstanding set) on every extracted path; implicit KeyError paths are discharged by the inductive invariant search <= outstanding.",
+        note="Same trusted base as C08.",
+        ref="DESIGN.md section 5 C09"),
+    "C10": dict(
+        technique="effect-ordering rules on typestate path summaries",
+        text="Decides on every path of every sending entry: a path that raises (refusal, encoding failure, implicit KeyError) has queued no bytes (E1), "
+             "refusals are LDAPError (E2), every server response is queued under a live fact that its id is outstanding (E3), final responses retire the id (E4).",
+        note="Same trusted base as C08; exceptions from encoding caller-supplied values are argument errors covered by E1 only.",
+        ref="DESIGN.md section 5 C10"),
+    "C11": dict(
+        technique="sibling cross-check of send-side and receive-side path summaries",
+        text="NECESSARY CONDITION ONLY: mirror agreement of state successor and outstanding/search set changes between the sender and the receiver of each of "
+             "12 message kinds. Joint histories, delivery schedules and value equality across the pipe are not decided (other technique families).",
+        note="Same trusted base as C08; precondition that responses match their request kind, as in the property.",
+        ref="DESIGN.md section 5 C11"),
+    "C12": dict(
+        technique="who-may-write census + path enumeration of the drain function with versioned locals",
+        text="Decides structurally: the outgoing buffer's writers are __init__, the send path (append of pack(msg) only) and the drain; on every path of the drain "
+             "the returned bytes and the retained buffer are complementary slices at the same cut value; draining touches nothing else; bytes are appended iff the send succeeds.",
+        note="Recognised drain shapes: prefix/suffix slices, or a read offset with cut-consistent retention; any other design is an ANALYSIS-ERROR, not a verdict.",
+        ref="DESIGN.md section 5 C12"),
+    "C15": dict(
+        technique="may-raise analysis + dimension typing of offsets + guard dataflow (+ regular-language inclusion)",
+        text="Decides totality of LDAPFilter.from_string up to the listed undecided window-index sites (escape set is FilterSyntaxError), a dimension discipline "
+             "(absolute position vs relative extent) on every FilterSyntaxError and recursive call, and that every attribute/rule reaching a constructor passed the "
+             "attribute pattern, whose language is compared with RFC 4512 by automata inclusion. Round trip of accepted results is not decided.",
+        note="IndexError on the scanners' window view needs relational offset arithmetic and is listed as undecided in the evidence, never alarmed.",
+        ref="DESIGN.md section 5 C15"),
+    "C18": dict(
+        technique="automata-theoretic ambiguity analysis of every regular expression recovered by constant folding",
+        text="Decides for all regular expressions of the package (10 distinct, 12 use sites): no exponential ambiguity with a constructed failing witness family "
+             "(product-SCC criterion on the position multigraph with sre's empty-iteration rule); structural progress of the hand-written scanner loops and no "
+             "re-parse-on-failure. Wall-clock constants and exact polynomial degree are not decided.",
+        note="Trusted: re._parser as the dialect; the backtracking cost model (number of distinct runs). Patterns are never compiled or matched.",
+        ref="DESIGN.md section 5 C18, section 4 Engine E"),
 }
 
 NOT_APPLICABLE = {
